@@ -10,10 +10,13 @@ Excluded by the run (`illFormed`): events of an actor blocked in lock; re-lock o
 owner (undefined in POSIX; what the code does then — return at once because wait_for tests the owner, leaving a stale
 acquisition that makes the next unlock hand the mutex back to the same actor — is modelled and checked by the
 correspondence, corpus case `nonrec-self`).
-Split path of the model checker (MUTEX_ASYNC_LOCK + MUTEX_WAIT): step-level theorems only (`lock_is_split`,
-`lockAsync_keeps_order`, `waitFor_completes_iff`); the history-level ones are proved for the one-simcall path.
+Split path of the model checker (MUTEX_ASYNC_LOCK + MUTEX_WAIT as separate events, any interleaving): history-level
+theorems `split_*` at the end of the file (exclusion, ownership, recursion depth, FIFO hand-off, MUTEX_WAIT enabled iff
+granted) over the run of C04/Split.lean, next to the step-level `lock_is_split`, `lockAsync_keeps_order`,
+`waitFor_completes_iff`.
 -/
 import SgVerif.C04.Lemmas
+import SgVerif.C04.SplitLemmas
 namespace SgVerif.C04
 open SgVerif.Sync
 
@@ -163,5 +166,104 @@ theorem d1_old_code_counterexample :
     let m1 := (tryLockOld m0 0).1
     let m2 := (m1.lock 0 .unit).1
     (m2.unlock 0).toOption.map (fun x => x.1.owner) = some none := by decide
+
+/-! ### the SPLIT path, whole histories
+
+Every theorem: for ALL histories of MUTEX_ASYNC_LOCK / MUTEX_WAIT / MUTEX_TRYLOCK / MUTEX_UNLOCK events by any actors
+(`srun`, C04/Split.lean), recursive or not; a MUTEX_WAIT may be executed granted (what the checker does: it is enabled
+only then) or not granted (then it registers and is answered by the hand-off, as in a normal run).  `held a` counts the
+MUTEX_WAITs / successful try_locks that RETURNED to `a` minus its unlocks. -/
+
+/-- the split events of `World.step` apply exactly the functions the split run applies (to `mutexes m`), with the same
+answers -/
+theorem split_step_is_world_step (w : World) (a : Aid) (m : Nat) :
+    w.step (.lockAsync a m) = .ok ({ w with mutexes := upd w.mutexes m ((w.mutexes m).lockAsync a).1 },
+                                   [(a, .flag ((w.mutexes m).lockAsync a).2)]) ∧
+    w.step (.mutexWait a m) = .ok ({ w with mutexes := upd w.mutexes m ((w.mutexes m).waitFor a .unit).1 },
+                                   optOut a ((w.mutexes m).waitFor a .unit).2) ∧
+    w.step (.tryLock a m) = .ok ({ w with mutexes := upd w.mutexes m ((w.mutexes m).tryLock a).1 },
+                                 [(a, .flag ((w.mutexes m).tryLock a).2)]) ∧
+    w.step (.unlock a m) =
+      (match (w.mutexes m).unlock a with
+       | .error e => .error e
+       | .ok (mu, fin) => .ok ({ w with mutexes := upd w.mutexes m mu },
+                               (match fin with | some o => [o] | none => []) ++ [(a, .unit)])) :=
+  ⟨rfl, rfl, rfl, rfl⟩
+
+/-- split path: an actor whose MUTEX_WAIT / try_lock returns outnumber its unlocks is the kernel's owner -/
+theorem split_holder_is_owner (r : Bool) (evs : List SEv) (s : SSt) (h : srun (SSt.init r) evs = .ok s) (a : Aid)
+    (ha : s.held a > 0) : s.m.owner = some a := by
+  have hi := sinv_run evs (sinv_init r) h
+  by_cases ho : s.m.owner = some a
+  · exact ho
+  · have := hi.notOwner a ho
+    omega
+
+/-- split path: mutual exclusion in the actors' view, every history, every interleaving of the split events -/
+theorem split_mutex_exclusion (r : Bool) (evs : List SEv) (s : SSt) (h : srun (SSt.init r) evs = .ok s) (a b : Aid)
+    (ha : s.held a > 0) (hb : s.held b > 0) : a = b := by
+  have h1 := split_holder_is_owner r evs s h a ha
+  have h2 := split_holder_is_owner r evs s h b hb
+  rw [h1] at h2
+  exact Option.some.inj h2
+
+/-- split path: the recursive owner's returned acquisitions (plus the one it may hold granted but not yet waited) never
+exceed recursive_depth; a non-recursive owner holds at most one -/
+theorem split_held_le_depth (r : Bool) (evs : List SEv) (s : SSt) (h : srun (SSt.init r) evs = .ok s) (a : Aid)
+    (ho : s.m.owner = some a) :
+    (s.m.recursive = true → ((s.held a + (if s.pend a then 1 else 0) : Nat) : Int) ≤ s.m.depth) ∧
+    (s.m.recursive = false → s.held a + (if s.pend a then 1 else 0) ≤ 1) :=
+  (sinv_run evs (sinv_init r) h).ownerHeld a ho
+
+/-- split path, FIFO: the acquisitions that entered `ongoing_acquisitions_` (in MUTEX_ASYNC_LOCK order) = the hand-offs
+made so far, in order, followed by the current queue: the i-th hand-off goes to the i-th queued acquisition, whatever
+the interleaving of the MUTEX_WAITs -/
+theorem split_mutex_fifo (r : Bool) (evs : List SEv) (s : SSt) (h : srun (SSt.init r) evs = .ok s) :
+    s.enq = s.handoffs ++ s.m.queue.map (·.issuer) ∧ (s.m.queue.map (·.issuer)).Nodup :=
+  ⟨(sinv_run evs (sinv_init r) h).fifo, (sinv_run evs (sinv_init r) h).nodup⟩
+
+/-- split path: MUTEX_WAIT of a pending acquisition completes at once iff the acquisition is granted (= it is not in the
+queue): on every reachable state the owner test of `MutexAcquisitionImpl::wait_for` coincides with `granted_`, the
+enabledness test of the checker (the domain excludes the re-lock of a non-recursive mutex by its owner) -/
+theorem split_wait_enabled_iff_granted (r : Bool) (evs : List SEv) (s : SSt) (h : srun (SSt.init r) evs = .ok s)
+    (a : Aid) (hp : s.pend a = true) :
+    (s.m.waitFor a .unit).2.isSome = true ↔ a ∉ s.m.queue.map (·.issuer) := by
+  have hi := sinv_run evs (sinv_init r) h
+  rw [waitFor_completes_iff]
+  constructor
+  · intro ho hm
+    obtain ⟨q, hq, e⟩ := List.mem_map.mp hm
+    exact (hi.q1 q hq).2.1 (by rw [e]; exact ho)
+  · intro hn
+    rcases hi.pq a hp with h1 | h1
+    · exact h1
+    · exact absurd h1 hn
+
+/-- split path, no lost hand-off: a queued acquisition is registered iff its issuer already executed its MUTEX_WAIT
+(then the hand-off answers it, `handoff_to_head`); otherwise the hand-off only makes it the owner and the MUTEX_WAIT it
+executes later returns at once (`split_wait_enabled_iff_granted`); nobody is blocked without being queued -/
+theorem split_queued_registered_iff_blocked (r : Bool) (evs : List SEv) (s : SSt)
+    (h : srun (SSt.init r) evs = .ok s) :
+    (∀ q ∈ s.m.queue, q.waited = s.blocked q.issuer ∧ s.pend q.issuer = true ∧ s.m.owner ≠ some q.issuer) ∧
+    (∀ a, s.blocked a = true → a ∈ s.m.queue.map (·.issuer)) ∧
+    (∀ a, s.pend a = true → s.m.owner = some a ∨ a ∈ s.m.queue.map (·.issuer)) := by
+  have hi := sinv_run evs (sinv_init r) h
+  exact ⟨fun q hq => ⟨(hi.q1 q hq).2.2.2, (hi.q1 q hq).2.2.1, (hi.q1 q hq).2.1⟩, hi.bl, hi.pq⟩
+
+/-- non-vacuity, split path: 0 and 1 lock asynchronously; 1 waits first (blocks, registered), 0 waits (returns); 2 locks
+asynchronously and does NOT wait yet; unlock 0 answers 1; unlock 1 hands the mutex to 2 silently; the late MUTEX_WAIT
+of 2 returns at once -/
+example : ((srun (SSt.init false) [.asyncLock 0, .asyncLock 1, .wait 1, .wait 0, .asyncLock 2, .unlock 0, .unlock 1,
+      .wait 2]).toOption.map (fun s => (s.m.owner, s.enq, s.handoffs, s.held 0, s.held 1, s.held 2))) =
+    some (some 2, [1, 2], [1, 2], 0, 0, 1) := by decide
+
+/-- … and in the middle of it: 1 is blocked and registered, 2 queued and not registered -/
+example : ((srun (SSt.init false) [.asyncLock 0, .asyncLock 1, .wait 1, .wait 0, .asyncLock 2]).toOption.map
+      (fun s => (s.m.owner, s.m.queue.map (fun q => (q.issuer, q.waited)), s.blocked 1, s.blocked 2, s.pend 2))) =
+    some (some 0, [(1, true), (2, false)], true, false, true) := by decide
+
+/-- a second event of an actor between its MUTEX_ASYNC_LOCK and the return of its MUTEX_WAIT is not a history -/
+example : (srun (SSt.init true) [.asyncLock 0, .asyncLock 0]).toOption.isNone = true ∧
+    (srun (SSt.init false) [.asyncLock 0, .asyncLock 1, .wait 1, .wait 1]).toOption.isNone = true := by decide
 
 end SgVerif.C04
